@@ -34,15 +34,23 @@ def run(ctx):
         xobs = g.load_jsonl(os.path.join(ctx.work, "obs.jsonl"))
         cobs = g.load_jsonl(os.path.join(ctx.work, "ct.jsonl"))
         mobs = g.load_jsonl(os.path.join(ctx.work, "mixed.jsonl"))
+        bobs = g.load_jsonl(os.path.join(ctx.work, "bytes.jsonl"))
         for shard in meta["shards"]:
             r = res.get(shard) or {}
             kind, idx = shard.split("_")[0], int(shard.split("_")[1].split(".")[0])
-            src = {"xcases": xobs, "ctcases": cobs, "mcases": mobs}[kind]
-            base = {"xcases": idx * meta["shard_size"], "ctcases": 0, "mcases": idx}[kind]
+            src = {"xcases": xobs, "ctcases": cobs, "mcases": mobs, "bcases": bobs}[kind]
+            base = {"xcases": idx * meta["shard_size"], "ctcases": 0, "mcases": idx, "bcases": 0}[kind]
             for ident, acc in (("M", model_bad), ("P", prop_bad)):
                 for i in (ctx.parse_nlist(r.get(ident)) or []):
                     case = src[base + i] if base + i < len(src) else {"index": base + i}
                     acc.append((kind, case))
+
+    # thorough: the same harness built with the race detector (data races in the accounting code are schedule faults)
+    race_note = None
+    if ctx.tier == "thorough" and not ctx.replay:
+        race_note = race_run(ctx)
+        if race_note.get("races") or race_note.get("error"):
+            ob_failed.append("race-detector run of the harness: %s" % json.dumps(race_note)[:1200])
 
     # decide (DESIGN.md 2.2).  One violation per leaf of the path tree (exchange cases) / per kind (conntrack).
     def key_of(kind, case):
@@ -50,6 +58,8 @@ def run(ctx):
             return case.get("leaf", "?")
         if kind == "mcases":
             return "mixed-load-" + ("upstream" if case.get("upstream") else "direct")
+        if kind == "bcases":
+            return "byte-counters"
         return "conntrack-" + str(case.get("kind"))
 
     seen = set()
@@ -65,6 +75,10 @@ def run(ctx):
                         n, k, case.get("name"), trace_text(case), {a: b for a, b in case.get("in_flight", {}).items() if b},
                         case.get("total"), case.get("listener_active"), case.get("dialer_active")))
             ctx.violation("accounting:" + k, {"name": case.get("name"), "kind": "exchange"}, True, what)
+        elif kind == "bcases":
+            ctx.violation("accounting:" + k, {"kind": "bytes", "obs": case}, True,
+                          "conntrack Observer differs from the bytes transferred: rx=%s (peer sent %s) tx=%s (peer got %s)" % (
+                              case.get("rx"), case.get("peer_sent"), case.get("tx"), case.get("peer_got")))
         elif kind == "mcases":
             ctx.violation("accounting:" + k, {"kind": "mixed", "name": case.get("name")}, True,
                           "%d connections / %d requests of mixed kinds against one proxy: at quiescence in_flight=%s total=%s (requests %d) "
@@ -121,6 +135,7 @@ def run(ctx):
                          "mixed_requests": meta.get("mixed_requests"), "mixed_connections": meta.get("mixed_connections"),
                          "path_tree_valuations_proved": 311040},
         "samples": [{"exchange_cases": meta.get("samples")}],
+        "race_detector_run": race_note,
     }
     ctx.finish("proof", coverage, [
         "the theorems are about the Gallina path model of proxyConn.handle and its callees and the LTS of closeListener.Close; "
@@ -129,8 +144,43 @@ def run(ctx):
         "hypothesis of T13_exactly_once / T13_gauge_zero: the proxy is not shutting down during the exchange (p.closing() false)",
         "leaves not reachable with net/http's Transport (101 whose body is not a ReadWriteCloser, drainBuffer error) and the h2 MITM "
         "hand-off are in the model and the proofs but are not driven end-to-end",
-        "byte counters (conntrack Observer rx/tx) are not part of this check",
+        "byte counters: the conntrack Observer is compared with the bytes a loopback peer sent / received (Read, Write, ReadFrom with "
+        "seeded sizes); the proxy does not export them as Prometheus series",
     ])
+
+
+def race_run(ctx):
+    """go build -race of harness/cmd/c13 against the tree, run its quick tier, look for DATA RACE reports."""
+    import re
+    import shutil
+    hdir = os.path.join(common.VERIF, "harness")
+    mod = open(os.path.join(hdir, "go.mod")).read()
+    mod = re.sub(r"(replace github.com/saucelabs/forwarder => ).*", r"\g<1>" + ctx.repo, mod)
+    modfile = os.path.join(ctx.work, "race.mod")
+    open(modfile, "w").write(mod)
+    shutil.copy(os.path.join(ctx.repo, "go.sum"), os.path.join(ctx.work, "race.sum"))
+    out = os.path.join(ctx.work, "harness-c13-race")
+    env = common.go_env()
+    env["CGO_ENABLED"] = "1"
+    rc, log = common.sh([common.go_cmd(), "build", "-race", "-modfile=" + modfile, "-tags", "verif", "-o", out, "./cmd/c13"],
+                        cwd=hdir, env=env, timeout=900)
+    if rc != 0:
+        return {"error": "race build failed: " + log[-400:]}
+    rdir = os.path.join(ctx.work, "race")
+    os.makedirs(rdir, exist_ok=True)
+    env2 = dict(os.environ)
+    env2["GORACE"] = "halt_on_error=0 log_path=" + os.path.join(rdir, "race")
+    rc, log = common.sh([out, "-seed", str(ctx.seed), "-tier", "quick", "-out", rdir], env=env2, timeout=900)
+    reports = [f for f in os.listdir(rdir) if f.startswith("race.")]
+    races = []
+    for f in reports:
+        txt = open(os.path.join(rdir, f), errors="replace").read()
+        for m in re.finditer(r"WARNING: DATA RACE(.*?)(?:==================|$)", txt, re.S):
+            body = m.group(1)
+            # only races that involve forwarder's code (not the harness' own bookkeeping)
+            if "saucelabs/forwarder" in body:
+                races.append(" ".join(body.split())[:600])
+    return {"rc": rc, "races": races[:5], "race_reports": len(races)}
 
 
 def _count_obligations():
